@@ -7,6 +7,7 @@ package conc
 import (
 	"context"
 	"fmt"
+	"regexp"
 	"strings"
 
 	"github.com/getkin/kin-openapi/openapi3"
@@ -194,6 +195,26 @@ components:
 	return strings.ReplaceAll(y, "MARK", marker)
 }
 
+var (
+	ownLineDefault = regexp.MustCompile(`(?m)^\s+default: \S.*\n`)
+	inlineDefaultA = regexp.MustCompile(`, default: (\[[^\]]*\]|[^,}\s]+)`)
+	inlineDefaultB = regexp.MustCompile(`default: (\[[^\]]*\]|[^,}\s]+), `)
+)
+
+// plainDocYAML is the same document without any schema default: document
+// validation then validates no value at all, so nothing that the library
+// initialises lazily at the first validation of a value (per process) has been
+// touched when the callers start.
+func plainDocYAML(marker string) string {
+	y := docYAML(marker)
+	y = strings.Replace(y, "ver: {default: '1'", "ver: {dflt-keep: '1'", 1) // a server variable must keep its default
+	y = ownLineDefault.ReplaceAllString(y, "")
+	y = inlineDefaultA.ReplaceAllString(y, "")
+	y = inlineDefaultB.ReplaceAllString(y, "")
+	y = strings.Replace(y, "dflt-keep:", "default:", 1)
+	return y
+}
+
 // World is everything the callers share.
 type World struct {
 	Doc     *openapi3.T
@@ -206,9 +227,13 @@ type World struct {
 // legal way to validate), so that no pattern of the document has been compiled
 // before the callers start: first use of every pattern then happens among the
 // concurrent calls.
-func LoadWorld(marker string, coldPatterns bool) (*World, error) {
+func LoadWorld(marker string, coldPatterns bool, plain bool) (*World, error) {
 	loader := openapi3.NewLoader()
-	doc, err := loader.LoadFromData([]byte(docYAML(marker)))
+	text := docYAML(marker)
+	if plain {
+		text = plainDocYAML(marker)
+	}
+	doc, err := loader.LoadFromData([]byte(text))
 	if err != nil {
 		return nil, fmt.Errorf("load: %w", err)
 	}
